@@ -29,6 +29,9 @@ type Case struct {
 	Role    []int    `json:"role"`
 	KK      int      `json:"kk"`
 	Mode    int      `json:"mode"` // migrate.PlanMode
+	// DropCol: a kept table that loses a foreign key also loses the referencing column in the same
+	// modification (MySQL refuses DROP COLUMN while the constraint lives; PostgreSQL drops it along).
+	DropCol bool `json:"dropcol,omitempty"`
 }
 
 type dialect struct {
@@ -42,7 +45,7 @@ var dialects = map[string]dialect{
 	"postgres": {"postgres", postgres.DefaultDiff, postgres.DefaultPlan},
 }
 
-func build(n int, present []bool, edges [][2]int) *schema.Schema {
+func build(n int, present []bool, edges [][2]int, without ...map[[2]int]bool) *schema.Schema {
 	s := schema.New("app")
 	ts := make([]*schema.Table, n)
 	for i := 0; i < n; i++ {
@@ -52,6 +55,9 @@ func build(n int, present []bool, edges [][2]int) *schema.Schema {
 		t := schema.NewTable(fmt.Sprintf("t%d", i)).AddColumns(schema.NewIntColumn("id", "bigint"))
 		t.SetPrimaryKey(schema.NewPrimaryKey(t.Columns[0]))
 		for j := 0; j < n; j++ {
+			if len(without) > 0 && without[0][[2]int{i, j}] {
+				continue
+			}
 			t.AddColumns(schema.NewNullIntColumn(fmt.Sprintf("r%d", j), "bigint"))
 		}
 		ts[i] = t
@@ -71,8 +77,25 @@ func build(n int, present []bool, edges [][2]int) *schema.Schema {
 
 // cat is the reference catalogue: tables and live foreign keys (child.symbol -> (child, parent)).
 type cat struct {
-	tables map[string]bool
-	fks    map[string][2]string
+	tables  map[string]bool
+	fks     map[string][2]string
+	dialect string
+}
+
+// dropCol drops column r<j> of a table: MySQL refuses while a foreign key of the table uses the
+// column, PostgreSQL drops that constraint along with it.
+func (c *cat) dropCol(child, col string) string {
+	if !c.tables[child] {
+		return "modify-missing-table: column dropped on missing table " + child
+	}
+	k := child + ".fk_" + strings.TrimPrefix(child, "t") + "_" + strings.TrimPrefix(col, "r")
+	if _, ok := c.fks[k]; ok {
+		if c.dialect == "mysql" {
+			return fmt.Sprintf("drop-column-in-fk: column %s.%s dropped while fk %s still uses it", child, col, k)
+		}
+		delete(c.fks, k)
+	}
+	return ""
 }
 
 func (c *cat) addFK(child, symbol, parent string) string {
@@ -163,6 +186,14 @@ func replaySource(c *cat, changes []*migrate.Change, created, dropped map[string
 					}
 				}
 			}
+			// one ALTER TABLE: constraint drops take effect before column drops
+			for _, ch := range src.Changes {
+				if ch, ok := ch.(*schema.DropColumn); ok {
+					if e := c.dropCol(src.T.Name, ch.C.Name); e != "" {
+						return e
+					}
+				}
+			}
 		}
 	}
 	return ""
@@ -175,6 +206,7 @@ var (
 	reDropT   = regexp.MustCompile(`^DROP TABLE ` + qual + q + `(t\d+)` + q)
 	reAlter   = regexp.MustCompile(`^ALTER TABLE ` + qual + q + `(t\d+)` + q)
 	reClause  = regexp.MustCompile(`(?:CONSTRAINT ` + q + `(fk_\d+_\d+)` + q + ` FOREIGN KEY \([^)]*\) REFERENCES ` + qual + q + `(t\d+)` + q + `)|(?:DROP (?:FOREIGN KEY|CONSTRAINT) ` + q + `(fk_\d+_\d+)` + q + `)`)
+	reDropCol = regexp.MustCompile(`DROP COLUMN ` + q + `(r\d+)` + q)
 	reAnyStmt = regexp.MustCompile(`^(CREATE TABLE|DROP TABLE|ALTER TABLE)`)
 )
 
@@ -214,6 +246,11 @@ func replayText(c *cat, changes []*migrate.Change, created, dropped map[string]i
 						return e
 					}
 				} else if e := c.dropFK(t, m[3]); e != "" {
+					return e
+				}
+			}
+			for _, m := range reDropCol.FindAllStringSubmatch(cmd, -1) {
+				if e := c.dropCol(t, m[1]); e != "" {
 					return e
 				}
 			}
@@ -280,12 +317,31 @@ func split(cs Case) (curP, desP []bool, curE, desE [][2]int, hasKK bool) {
 	return
 }
 
+// dropCols lists the (child, parent) edges whose foreign key disappears while the child table is kept.
+func dropCols(cs Case, curE, desE [][2]int) map[[2]int]bool {
+	in := map[[2]int]bool{}
+	for _, e := range desE {
+		in[e] = true
+	}
+	out := map[[2]int]bool{}
+	for _, e := range curE {
+		if !in[e] && cs.Role[e[0]] == 2 {
+			out[e] = true
+		}
+	}
+	return out
+}
+
 // one plans the case with the real code and replays the plan. why == "" means held; the part of
 // why before ':' is the class used in the finding key.
 func one(cs Case) (why string, cmds []string, nchanges int) {
 	d := dialects[cs.Dialect]
 	curP, desP, curE, desE, _ := split(cs)
-	cur, des := build(cs.N, curP, curE), build(cs.N, desP, desE)
+	var without map[[2]int]bool
+	if cs.DropCol {
+		without = dropCols(cs, curE, desE)
+	}
+	cur, des := build(cs.N, curP, curE), build(cs.N, desP, desE, without)
 	changes, err := d.diff.SchemaDiff(cur, des, schema.DiffNormalized())
 	if err != nil {
 		return "diff-error: " + err.Error(), nil, 0
@@ -324,6 +380,7 @@ func one(cs Case) (why string, cmds []string, nchanges int) {
 	plan = plan2
 	for leg, rp := range []func(*cat, []*migrate.Change, map[string]int, map[string]int) string{replaySource, replayText} {
 		c := catOf(build(cs.N, curP, curE))
+		c.dialect = cs.Dialect
 		created, dropped := map[string]int{}, map[string]int{}
 		legName := []string{"source", "text"}[leg]
 		if w := rp(c, plan.Changes, created, dropped); w != "" {
@@ -388,6 +445,11 @@ func run(c *rt.Ctx) {
 			for _, mode := range []int{0, int(migrate.PlanModeInPlace), int(migrate.PlanModeDeferred), int(migrate.PlanModeDump)} {
 				cs.Dialect, cs.Mode = d, mode
 				cases = append(cases, cs)
+				if _, _, curE, desE, _ := split(cs); len(dropCols(cs, curE, desE)) > 0 {
+					dc := cs
+					dc.DropCol = true
+					cases = append(cases, dc)
+				}
 			}
 		}
 	}
@@ -438,6 +500,9 @@ func run(c *rt.Ctx) {
 		c.Count("dialect:"+cs.Dialect, 1)
 		c.Count(fmt.Sprintf("n=%d", cs.N), 1)
 		c.Eval(rt.Digest(cs.Dialect, cs.Mode, cmds), len(cmds) > 1)
+		if cs.DropCol {
+			c.Count("fk-dropped-with-its-column", 1)
+		}
 		if hasCycle(cs) {
 			c.Count("cyclic-graphs", 1)
 		}
@@ -450,7 +515,7 @@ func run(c *rt.Ctx) {
 			c.Sample(map[string]any{"case": cs, "plan": cmds, "verdict": "held"})
 		}
 	})
-	c.Finish("all FK digraphs with self loops over n ≤ 3 tables × all 3^n splits (created/dropped/kept) × kept-kept edge added/dropped (exhaustive), n = 4 sampled (quick) or all 65 536 graphs × {create-all, drop-all, 10 seeded splits} (thorough), random sparse graphs n = 5..8; × {MySQL, PostgreSQL} × plan mode {unset, in-place, deferred, dump}. The real differ's change set is planned by the real planner and the plan is replayed in order, once via Source changes and once via the statement text, on a reference catalogue: FK target must exist (or be the table itself), no table dropped while a live foreign FK points at it, each table created/dropped exactly once, final catalogue == desired, no planning error. distinct = distinct multi-statement plan texts",
+	c.Finish("all FK digraphs with self loops over n ≤ 3 tables × all 3^n splits (created/dropped/kept) × kept-kept edge added/dropped × {FK dropped alone, FK dropped together with its column} (exhaustive), n = 4 sampled (quick) or all 65 536 graphs × {create-all, drop-all, 10 seeded splits} (thorough), random sparse graphs n = 5..8; × {MySQL, PostgreSQL} × plan mode {unset, in-place, deferred, dump}. The real differ's change set is planned by the real planner and the plan is replayed in order, once via Source changes and once via the statement text, on a reference catalogue: FK target must exist (or be the table itself), no table dropped while a live foreign FK points at it, each table created/dropped exactly once, final catalogue == desired, no planning error. distinct = distinct multi-statement plan texts",
 		map[string]any{"exhaustive_core_cases": exh3, "exhaustive": false})
 }
 
